@@ -529,10 +529,10 @@ func (e *escaper) escapeTree(c context, node parse.Node, name string, line int) 
 // context while storing any inferences in e.
 func (e *escaper) computeOutCtx(c context, t *template.Template) context {
 	// Propagate context over the body.
-	c1, ok := e.escapeTemplateBody(c, t)
+	c1, ok := e.escapeTemplateBody(c, c, t)
 	if !ok {
 		// Look for a fixed point by assuming c1 as the output context.
-		if c2, ok2 := e.escapeTemplateBody(c1, t); ok2 {
+		if c2, ok2 := e.escapeTemplateBody(c, c1, t); ok2 {
 			c1, ok = c2, true
 		}
 		// Use c1 as the error context if neither assumption worked.
@@ -551,10 +551,10 @@ func (e *escaper) computeOutCtx(c context, t *template.Template) context {
 	return c1
 }
 
-// escapeTemplateBody escapes the given template assuming the given output
-// context, and returns the best guess at the output context and whether the
-// assumption was correct.
-func (e *escaper) escapeTemplateBody(c context, t *template.Template) (context, bool) {
+// escapeTemplateBody escapes the given template starting in context c and
+// assuming the output context out, and returns the best guess at the output
+// context and whether the assumption was correct.
+func (e *escaper) escapeTemplateBody(c, out context, t *template.Template) (context, bool) {
 	filter := func(e1 *escaper, c1 context) bool {
 		if c1.state == stateError {
 			// Do not update the input escaper, e.
@@ -566,13 +566,13 @@ func (e *escaper) escapeTemplateBody(c context, t *template.Template) (context, 
 			return true
 		}
 		// c1 is accurate if it matches our assumed output context.
-		return c.eq(c1)
+		return out.eq(c1)
 	}
 	// We need to assume an output context so that recursive template calls
 	// take the fast path out of escapeTree instead of infinitely recursing.
 	// Naively assuming that the input context is the same as the output
 	// works >90% of the time.
-	e.output[t.Name()] = c
+	e.output[t.Name()] = out
 	return e.escapeListConditionally(c, t.Tree.Root, filter)
 }
 
